@@ -105,6 +105,9 @@ class SpooledTextFile(_io.TextIOBase):
         :returns the disk file's fileno
         """
         self._rollover()
+        # The file descriptor is used for accessing the file without going via this object
+        # (e.g. by a sub process) - contents written so far must not remain in the buffer of the file object.
+        self._file.flush()
         return self._file.fileno()
 
     def flush(self):
